@@ -86,6 +86,11 @@ var streamProtos = []string{peerproto.SimPeerInfo, peerproto.SimPeerVersion, dlO
 func (crashEngine) Generate(prop string, r *simrt.RNG, tier string, run int) *simrt.Scenario {
 	sc := &simrt.Scenario{Knobs: map[string]int64{}}
 	sc.Knobs["timeout_ms"] = []int64{0, 400, 800}[r.Intn(3)]
+	if r.Chance(1, 12) {
+		// broadcast.disableValidation=true (documented for consortium / private
+		// chains): no topic validators, no validator bookkeeping
+		sc.Knobs["no_validation"] = 1
+	}
 	nonce := int64(run)*1000 + 1
 	// material: 2..4 base blocks
 	nblk := r.Range(2, 4)
@@ -184,7 +189,8 @@ func (e crashEngine) Execute(t *testing.T, ctx *simrt.Ctx) *simrt.Violation {
 	simrt.InBubble(t, func() { viol = e.run(ctx) })
 	if viol != nil && skipKnown {
 		switch viol.Class + "/" + viol.Sig {
-		case "peer-input-panic/pendBlockLoop/system/p2p/dht/protocol/broadcast.(*ltBroadcast).buildPendBlock", "loop-dead/fullblock-receive":
+		case "peer-input-panic/pendBlockLoop/system/p2p/dht/protocol/broadcast.(*ltBroadcast).buildPendBlock", "loop-dead/fullblock-receive",
+			"peer-input-panic/pendBlockLoop/system/p2p/dht/protocol/broadcast.(*validator).addBroadcastMsg":
 			return nil
 		}
 	}
@@ -211,6 +217,7 @@ type c33World struct {
 	// observation state
 	published []broadcast.SimPublished
 	lastRes   int
+	noValid   bool
 }
 
 func frame(payload []byte) []byte {
@@ -223,9 +230,10 @@ func frame(payload []byte) []byte {
 func (crashEngine) run(ctx *simrt.Ctx) *simrt.Violation {
 	sc := ctx.Sc
 	uid := fmt.Sprintf("%s-%d-%d", sc.Property, sc.Run, ctx.Seq())
-	n := newNode(ctx, nodeOpts{uid: uid, mempool: true, ltTimeout: sc.Knob("timeout_ms", 0)})
+	noValid := sc.Knob("no_validation", 0) == 1
+	n := newNode(ctx, nodeOpts{uid: uid, mempool: true, ltTimeout: sc.Knob("timeout_ms", 0), noValid: noValid})
 	defer n.close()
-	w := &c33World{ctx: ctx, n: n, replies: map[string][]scripted{}, ann: map[int]int64{}, used: map[string]int{}}
+	w := &c33World{noValid: noValid, ctx: ctx, n: n, replies: map[string][]scripted{}, ann: map[int]int64{}, used: map[string]int{}}
 	defer func() {
 		w.mu.Lock()
 		for k, c := range w.used {
@@ -343,7 +351,14 @@ func (w *c33World) exec(op *simrt.Op) {
 			return
 		}
 		b.inPool[u] = true
-		switch op.Int(2) {
+		via := op.Int(2)
+		if w.noValid {
+			// without topic validators a transaction received from a peer is never
+			// handed to the pool (handleSubMsg skips the tx topics): the pool update
+			// comes through the local API
+			via = 0
+		}
+		switch via {
 		case 1:
 			w.input("tx")
 			w.deliver(broadcast.SimTopicTx, n.bsim.Encode(b.units[u].pack), pidOf(2), pidOf(3))
@@ -1076,7 +1091,11 @@ func (w *c33World) probes() *simrt.Violation {
 	if has2() {
 		return ctx.Violate("wrong-block-posted", "probe-incomplete-posted", "a light block was posted although one of its transactions is not in the pool")
 	}
-	if res := w.deliver(broadcast.SimTopicTx, n.bsim.Encode(u4.pack), author, author); res != broadcast.SimAccept {
+	if w.noValid {
+		if ok, why := n.submit(u4); !ok {
+			return w.dead("tx-path", "a well-formed transaction is refused by the pool: %s", why)
+		}
+	} else if res := w.deliver(broadcast.SimTopicTx, n.bsim.Encode(u4.pack), author, author); res != broadcast.SimAccept {
 		return w.dead("tx-path", "a well-formed transaction broadcast by a peer was not accepted (%d)", res)
 	}
 	if !w.waitFor(c33ProbeWait, has2) {
@@ -1185,6 +1204,9 @@ func (w *c33World) probes() *simrt.Violation {
 	}
 	ctx.Probe("probe-peerinfo")
 
+	if w.noValid {
+		return check()
+	}
 	// P7: validator bookkeeping loop
 	n.bc.mu.Lock()
 	n.bc.replyErr = "ErrBlockHashNoMatch"
